@@ -16,7 +16,7 @@ META = dict(
     level_text=('Theorems (any program, any nesting depth, any of the 256 permission sets): the validator rejects iff some node needs a withheld flag; '
                 'the table regenerated from the current parsing.py gates every construct the property names; a rejected program never reaches the interpreter; '
                 'nested permission scopes never widen; evaluate() performs every side effect of the program exactly once, binds the same names and returns the value of the last expression/assignment (on the plan regenerated from execution.py). Tie: translator (fail-closed) regenerates Gen/PermTable.v each run and the proofs are re-checked; '
-                'the model is run against parsing.parse on every node class x withheld flag and on random nested programs; a direct oracle (sentinel proves nothing ran; accepted programs equal plain exec) runs on every case.'),
+                'the model is run against parsing.parse on every node class x withheld flag and on random nested programs; a direct oracle (sentinel proves nothing ran; accepted programs equal plain exec) runs on every case; an API-surface sweep runs permitted programs through evaluate / run (in process, sandboxed) in every return mode and with every way of injecting symbols, and the named constructs through every entry point.'),
     level_note=('Trusted: Coq kernel; translator harness/translators/perm_table.py; extraction (ExtrOcamlBasic) cross-checked against vm_compute; Python ast.parse for turning source text into the tree. '
                 'Modelled, not verified: Python exec/eval semantics (a Section variable); result/stdout/variables equality with plain execution is decided by the oracle only (partial).'),
     rule='a case is (program source, permission bits[, enclosing scopes]); distinct by (source, bits, scopes); non-trivial when the program has at least one node gated by some flag',
